@@ -68,11 +68,13 @@ VARIABLES
   ann,                    \* history: heights announced to handlers (HandleHeaders), in order
   badNotify,              \* history: in-sync notification sent while a block was still pending
   restarts, prs, dups, advs, unts,
+  chk,                    \* a message was handled and check() has not run since: monitorIncoming runs check() before it reads the
+                          \* next message (node.go:785), so no second message is handled while a check that changes something is due
   act                     \* label of the last action (for scripts / traces)
 
 nvars == <<chain, startH, req, toReq, lastSaved, infl, inSync, pendSync, hdrReq, hsDone, notified>>
 vars == <<ptip, tipc, pann, sendhdrs, net, out, chain, startH, req, toReq, lastSaved, infl, inSync,
-          pendSync, hdrReq, hsDone, notified, ann, badNotify, restarts, prs, dups, advs, unts, act>>
+          pendSync, hdrReq, hsDone, notified, ann, badNotify, restarts, prs, dups, advs, unts, chk, act>>
 
 Tip == IF chain = <<>> THEN 0 ELSE Last(chain)
 ChainHas(b) == b = 0 \/ b \in Range(chain)
@@ -154,7 +156,8 @@ HStep(s, b) ==
        ELSE LET s1 == [s EXCEPT !.inSync = FALSE, !.req = <<>>, !.toReq = <<>>,
                                 !.chain = SubSeq(@, 1, rh), !.lastSaved = IF Mut = "RevertNoSetLastHash" THEN @ ELSE ParX(b)]
             IN [TryRequest(s1, b) EXCEPT !.lastHash = b, !.modified = TRUE]
-  ELSE [s EXCEPT !.stop = TRUE, !.gd = <<>>]             \* unknown header: "return nil, nil" (:270)
+  ELSE [s EXCEPT !.stop = TRUE, !.gd = <<>>,             \* unknown header: "return nil, nil" (:270); repaired ("unknownpoll"): the node
+                 !.inSync = IF "unknownpoll" \in Fix THEN FALSE ELSE @]     \* also leaves the in-sync state, so that check() asks for headers again
 
 RECURSIVE HFold(_, _)
 HFold(s, hs) == IF hs = <<>> THEN s ELSE HFold(HStep(s, Head(hs)), Tail(hs))
@@ -220,7 +223,7 @@ Check ==
                 /\ IF ~hdrReq1 /\ Len(req) + Len(toReq) < 5 /\ Mut # "NoPollMore"
                    THEN out' = Append(out1, GH(Locator(1))) /\ hdrReq' = TRUE
                    ELSE out' = out1 /\ hdrReq' = hdrReq1
-  /\ act' = A0("Check")
+  /\ act' = A0("Check") /\ chk' = FALSE
   /\ UNCHANGED <<ptip, tipc, pann, net, chain, startH, req, toReq, lastSaved, infl, inSync,
                  pendSync, ann, restarts, prs, dups, advs, unts>>
 
@@ -231,7 +234,7 @@ ProcPop ==               \* state.NextBlock() (blocks.go:61)
   /\ lastSaved' = Head(req).b
   /\ req' = Tail(req)
   /\ act' = A0("ProcPop")
-  /\ UNCHANGED <<ptip, tipc, pann, sendhdrs, net, out, chain, startH, toReq, inSync, pendSync,
+  /\ UNCHANGED <<chk, ptip, tipc, pann, sendhdrs, net, out, chain, startH, toReq, inSync, pendSync,
                  hdrReq, hsDone, notified, ann, badNotify, restarts, prs, dups, advs, unts>>
 
 ProcDone(rq, tr) ==      \* request more blocks after ProcessBlock returned (blocks.go:78)
@@ -246,7 +249,7 @@ ProcCheck ==             \* ProcessBlock: Contains / previous-hash checks (block
      THEN ProcDone(req, toReq)
      ELSE infl' = [infl EXCEPT !.pc = "checked"] /\ UNCHANGED <<req, toReq, out>>
   /\ act' = A0("ProcCheck")
-  /\ UNCHANGED <<ptip, tipc, pann, sendhdrs, net, chain, startH, lastSaved, inSync, pendSync,
+  /\ UNCHANGED <<chk, ptip, tipc, pann, sendhdrs, net, chain, startH, lastSaved, inSync, pendSync,
                  hdrReq, hsDone, notified, ann, badNotify, restarts, prs, dups, advs, unts>>
 
 ProcAdd ==               \* ProcessBlock: merkle check, blocks.Add, HandleHeaders callback, in-sync detection
@@ -258,7 +261,7 @@ ProcAdd ==               \* ProcessBlock: merkle check, blocks.Add, HandleHeader
           /\ inSync' = (inSync \/ (pendSync /\ req = <<>> /\ toReq = <<>>))
   /\ ProcDone(req, toReq)
   /\ act' = A0("ProcAdd")
-  /\ UNCHANGED <<ptip, tipc, pann, sendhdrs, net, startH, lastSaved, pendSync, hdrReq, hsDone, notified,
+  /\ UNCHANGED <<chk, ptip, tipc, pann, sendhdrs, net, startH, lastSaved, pendSync, hdrReq, hsDone, notified,
                  badNotify, restarts, prs, dups, advs, unts>>
 
 -----------------------------------------------------------------------------
@@ -285,7 +288,7 @@ PeerAdvance(t) ==        \* best-chain change; announced by headers once "sendhe
              ELSE UNCHANGED <<net, pann>>
      ELSE UNCHANGED <<net, pann>>
   /\ act' = AT("PeerAdvance", t)
-  /\ UNCHANGED <<sendhdrs, out, chain, startH, req, toReq, lastSaved, infl, inSync, pendSync,
+  /\ UNCHANGED <<chk, sendhdrs, out, chain, startH, req, toReq, lastSaved, infl, inSync, pendSync,
                  hdrReq, hsDone, notified, ann, badNotify, restarts, prs, dups, advs, unts>>
 
 PeerAnswer(i) ==         \* getheaders: from the first locator hash on its chain, else from genesis; getdata: the block
@@ -299,13 +302,14 @@ PeerAnswer(i) ==         \* getheaders: from the first locator hash on its chain
         ELSE /\ net' = Append(net, BlkMsg(r.b, 1))
              /\ UNCHANGED pann
      /\ act' = [AR("PeerAnswer", r) EXCEPT !.t = i]
-  /\ UNCHANGED <<ptip, tipc, sendhdrs, chain, startH, req, toReq, lastSaved, infl, inSync,
+  /\ UNCHANGED <<chk, ptip, tipc, sendhdrs, chain, startH, req, toReq, lastSaved, infl, inSync,
                  pendSync, hdrReq, hsDone, notified, ann, badNotify, restarts, prs, dups, advs, unts>>
 
 Handle(m) == IF m.t = "hdr" THEN HandleHeaders(m.hs) ELSE HandleBlock(m.b, m.f)
 
 Deliver(i, keep) ==      \* one message of the trusted connection is handled (node.go:782 monitorIncoming)
   /\ i \in 1..Len(net) /\ (Fifo => i = 1)
+  /\ ~(chk /\ CheckGuard) /\ chk' = TRUE
   /\ IF keep THEN dups < MaxDup /\ dups' = dups + 1 /\ UNCHANGED net
              ELSE net' = SubSeq(net, 1, i - 1) \o SubSeq(net, i + 1, Len(net)) /\ UNCHANGED dups
   /\ Handle(net[i])
@@ -317,6 +321,7 @@ HdrLists == {<<>>} \cup {<<b>> : b \in Blocks \cup {Unknown}}
             \cup {<<a, b>> : a \in Blocks \cup {Unknown}, b \in Blocks}
 AdvMsg(m) ==
   /\ advs < MaxAdv /\ advs' = advs + 1
+  /\ ~(chk /\ CheckGuard) /\ chk' = TRUE
   /\ Handle(m)
   /\ act' = AM("AdvMsg", m, FALSE)
   /\ UNCHANGED <<ptip, tipc, pann, sendhdrs, net, infl, hsDone, notified, ann, badNotify, restarts, prs, dups, unts>>
@@ -328,7 +333,7 @@ UntrustedBlock(b, f) ==
   /\ IF "stale" \in Fix THEN UNCHANGED <<chain, startH, req, toReq, lastSaved, inSync, pendSync, hdrReq, out>>
      ELSE HandleBlock(b, f)
   /\ act' = AM("UntrustedBlock", BlkMsg(b, f), FALSE)
-  /\ UNCHANGED <<ptip, tipc, pann, sendhdrs, net, infl, hsDone, notified, ann, badNotify, restarts, prs, dups, advs>>
+  /\ UNCHANGED <<chk, ptip, tipc, pann, sendhdrs, net, infl, hsDone, notified, ann, badNotify, restarts, prs, dups, advs>>
 
 (* state/timeouts.go + node.restart(): reconnect with State.Reset() *)
 Quiet == out = <<>> /\ net = <<>> /\ infl = None /\ ~CheckGuard /\ ~(req # <<>> /\ Head(req).f # 0)
@@ -341,7 +346,7 @@ Restart ==
   /\ hsDone' = FALSE /\ inSync' = FALSE /\ hdrReq' = FALSE /\ pendSync' = FALSE
   /\ req' = <<>> /\ toReq' = <<>> /\ net' = <<>> /\ out' = <<>> /\ sendhdrs' = FALSE
   /\ pann' = 0
-  /\ act' = A0("Restart")
+  /\ act' = A0("Restart") /\ chk' = FALSE
   /\ UNCHANGED <<ptip, tipc, chain, startH, lastSaved, infl, notified, ann, badNotify, prs, dups, advs, unts>>
 
 (* Stop (saves everything) and a new process on the same storage: node.go:289 load() *)
@@ -352,7 +357,7 @@ ProcRestart ==
   /\ lastSaved' = Tip
   /\ hsDone' = FALSE /\ inSync' = FALSE /\ hdrReq' = FALSE /\ pendSync' = FALSE /\ notified' = FALSE
   /\ req' = <<>> /\ toReq' = <<>> /\ net' = <<>> /\ out' = <<>> /\ sendhdrs' = FALSE /\ pann' = 0
-  /\ act' = A0("ProcRestart")
+  /\ act' = A0("ProcRestart") /\ chk' = FALSE
   /\ ann' = <<>>
   /\ UNCHANGED <<ptip, tipc, chain, infl, badNotify, restarts, dups, advs, unts>>
 
@@ -361,7 +366,7 @@ Init ==
   /\ net = <<>> /\ out = <<>> /\ chain = <<>> /\ startH = -1
   /\ req = <<>> /\ toReq = <<>> /\ lastSaved = 0 /\ infl = None
   /\ inSync = FALSE /\ pendSync = FALSE /\ hdrReq = FALSE /\ hsDone = FALSE /\ notified = FALSE
-  /\ ann = <<>> /\ badNotify = FALSE /\ restarts = 0 /\ prs = 0 /\ dups = 0 /\ advs = 0 /\ unts = 0 /\ act = A0("init")
+  /\ ann = <<>> /\ badNotify = FALSE /\ restarts = 0 /\ prs = 0 /\ dups = 0 /\ advs = 0 /\ unts = 0 /\ chk = FALSE /\ act = A0("init")
 
 AdvMsgs == {HdrMsg(hs) : hs \in HdrLists} \cup {BlkMsg(b, f) : b \in Blocks, f \in {1, 2}}
 Next ==
